@@ -36,7 +36,7 @@ pub fn digests(seed: u64, n: usize) -> Vec<String> {
         let b = cycle::build(&spec);
         if let Ok(b) = b {
             let case = cycle::CycleCase { which: cycle::Which::C03, spec: spec.clone(), wstack: Stack::Line, wplan: super::simio::WritePlan::limit(3), writer: "fml",
-                rstack: super::stream::ReadStack::BufReader(5), rplan: super::simio::random_read_plan(&mut rng, b.reference.len()), execute: true };
+                rstack: super::stream::ReadStack::BufReader(5), rplan: super::simio::random_read_plan(&mut rng, b.reference.len()), execute: true, nointern: None };
             let v = cycle::run_cycle(&case, &b, &mut cycle::Probe::default());
             acc.push(digest_of(&v));
             if let Some(r) = &b.original_run { acc.push(digest_of(&(&r.output, r.steps, r.end.class(), &r.heap))); }
